@@ -544,8 +544,8 @@ class ChainOptions(Chain):
                     continue
                 opts = _read_options(V, psidx)
                 for R in (1, 2):
-                    if V == 3 and R == 2 and tier == "quick":
-                        continue
+                    if V == 3 and R == 2:
+                        continue  # three records: one read (two reads x 12 option combinations did not finish in 40 min)
                     for reads in itertools.combinations_with_replacement(opts, R):
                         out.append(dict(V=V, kinds=kinds, psidx=list(psidx), reads=[list(r) for r in reads], options=True))
         return out
